@@ -284,6 +284,50 @@ pub fn salts(ctx: &Ctx, rep: &mut Report) {
         }
     }
     rep.require("sign_calls_that_unwound_between_signatures", 8);
+    // signatures made WHILE A THREAD IS UNWINDING (a guard object whose destructor signs, e.g. an
+    // audit record written on failure): several threads panic at the same moment, each guard
+    // signs twice; all salts must differ
+    {
+        struct SignOnDrop {
+            sk: <F512 as Fv>::Sk,
+            id: usize,
+            out: Arc<Mutex<Vec<SaltRec>>>,
+        }
+        impl Drop for SignOnDrop {
+            fn drop(&mut self) {
+                for j in 0..2 {
+                    let msg = format!("unwinding-{}-{}", self.id, j).into_bytes();
+                    if let Ok(b) = std::panic::catch_unwind(std::panic::AssertUnwindSafe(|| F512::sig_to_bytes(&F512::sign(&msg, &self.sk)))) {
+                        self.out.lock().unwrap().push(SaltRec { salt: b[1..41].to_vec(), sig_hash: crate::util::hash64(&b), ctx: format!("signed in a destructor while thread {} was unwinding (call {})", self.id, j) });
+                    }
+                }
+            }
+        }
+        let (ku, _) = pool::keys::<F512>(ctx.seed, "c08-unwind", 1);
+        if let Some(k) = ku.first() {
+            let out: Arc<Mutex<Vec<SaltRec>>> = Arc::new(Mutex::new(vec![]));
+            for wave in 0..ctx.sz(6, 40) {
+                let mut hs = vec![];
+                for t in 0..8 {
+                    let (sk, out) = (k.sk.clone(), out.clone());
+                    hs.push(std::thread::spawn(move || {
+                        vh::set_sign_rng(None);
+                        let _g = SignOnDrop { sk, id: wave * 8 + t, out };
+                        panic!("unwinding on purpose");
+                    }));
+                }
+                for h in hs {
+                    let _ = h.join();
+                }
+            }
+            let recs = out.lock().unwrap().clone();
+            rep.count("signatures_made_during_unwinding", recs.len() as u64);
+            check_history("signatures made in destructors while their threads were unwinding", &recs, rep);
+            rep.nontrivial_s("history|unwinding");
+            all.extend(recs);
+        }
+    }
+    rep.require("signatures_made_during_unwinding", 40);
     // how much of the generator's output the salt carries: two generator streams (RNG hook) that
     // agree ONLY on a window of at most 32 output positions and are independent everywhere else
     // cannot lead to the same 40-byte salt, wherever in the stream the salt is drawn from; a salt
